@@ -60,12 +60,12 @@ def r1_entries(chk: Check) -> None:
     else:
         s = seeds[0]
         arg = s.func.args[0] if s.func.args else None  # type: ignore[union-attr]
-        chk.decide(unparse(arg) == "config.seed", "C13.R1", ct, "hypothesis.seed(config.seed)(test)", f"seeded with {unparse(arg)}", ct.loc(s))
+        chk.decide(ceq(ct, arg, 'config.seed'), "C13.R1", ct, "hypothesis.seed(config.seed)(test)", f"seeded with {unparse(arg)}", ct.loc(s))
         st = stmt_of(s)
         back = isinstance(st, ast.Assign) and unparse(st.targets[0]) == unparse(s.args[0]) if s.args else False
         chk.decide(back, "C13.R1", ct, "seeded test replaces the unseeded one", "the seeded wrapper is discarded", ct.loc(s))
         p_ = parent(st) if st is not None else None
-        chk.decide(isinstance(p_, ast.If) and unparse(p_.test) == "config.seed is not None", "C13.R1", ct, "seeding guarded only by `config.seed is not None`", f"guard is `{unparse(p_.test) if isinstance(p_, ast.If) else None}`", ct.loc(s))
+        chk.decide(isinstance(p_, ast.If) and ceq(ct, p_.test, 'config.seed is not None'), "C13.R1", ct, "seeding guarded only by `config.seed is not None`", f"guard is `{unparse(p_.test) if isinstance(p_, ast.If) else None}`", ct.loc(s))
     # lost update: hypothesis.seed() also rewrites the test's settings (database=None); create_test reads the settings
     # attribute, merges, and writes it back at the end - seeding between the read and the write-back would be undone
     g = cfg_of(ct)
@@ -85,7 +85,7 @@ def r1_entries(chk: Check) -> None:
     wt = P.func("engine/phases/unit/__init__.py:worker_task")
     cfg = [c for c in body_calls(wt) if last_attr(c) == "HypothesisTestConfig"]
     v = kwarg(cfg[0], "seed") if cfg else None
-    chk.decide(v is not None and unparse(v) == "ctx.config.execution.seed", "C13.R1", wt, "HypothesisTestConfig(seed=ctx.config.execution.seed)", f"tests get seed {unparse(v)}", wt.loc())
+    chk.decide(v is not None and ceq(wt, v, 'ctx.config.execution.seed'), "C13.R1", wt, "HypothesisTestConfig(seed=ctx.config.execution.seed)", f"tests get seed {unparse(v)}", wt.loc())
     # 2. single examples: derandomize
     ds = P.func(f"{EXAMPLES}:default_settings")
     sc = [c for c in body_calls(ds) if last_attr(c) == "settings"]
